@@ -408,6 +408,7 @@ impl OsIpcSender {
         let (dedicated_tx, dedicated_rx) = channel()?;
         // Extract FD handle without consuming the Receiver, so the FD doesn't get closed.
         fds.push(dedicated_rx.fd.get());
+        let mut dedicated_rx = Some(dedicated_rx);
 
         // Split up the packet into fragments.
         let mut byte_position = 0;
@@ -442,6 +443,12 @@ impl OsIpcSender {
                 }
             }
 
+            if byte_position == 0 {
+                // The receiving end of the dedicated channel now travels with the first fragment.
+                // Close our own copy: otherwise, if the receiver goes away before it has picked up
+                // all fragments, sending the remaining ones would block forever instead of failing.
+                drop(dedicated_rx.take());
+            }
             byte_position = end_byte_position;
         }
 
